@@ -124,6 +124,8 @@ def thorough_templates(seed: int) -> list[tuple[Any, ...]]:
                 o['orthogonal'] = bool(rng.random() < 0.7)
             if lvl == 4 and n > 2:
                 n = 2
+            if kind in ('state', 'system') and lvl >= 2 and rng.random() < 0.85:
+                o['eps'] = 1e-6   # level >= 2 state workflows stall below ~1e-7
         if rng.random() < 0.06 and lvl <= 2 and n <= 2:
             o['radix'] = 3
             gs = 'default3'
@@ -344,7 +346,11 @@ def main(tier: str, seed: int, replay: str | None = None) -> int:
         if run.deadline is None:
             run.deadline = time.monotonic() + THOROUGH_BUDGET_S
         cases = [make_case(seed, 1000 + i, t) for i, t in enumerate(thorough_templates(seed))]
-        timeouts = [THOROUGH_TIMEOUT[c['config']['level']] for c in cases]
+        timeouts = [
+            THOROUGH_TIMEOUT[c['config']['level']] if c['input']['kind'] == 'circuit'
+            else min(THOROUGH_TIMEOUT[c['config']['level']], 300.0 if c['model']['n'] <= 2 else 600.0)
+            for c in cases
+        ]
         ncorp = THOROUGH_CORPUS
     compiled: list[Any] = []
 
